@@ -66,12 +66,16 @@ def run_job(job, res):
                 bad = ("from_bban", f"from_bban raised {type(x[1]).__name__} on a structure-conforming BBAN")
         else:
             p = rt.SymStr.of(x[1]._s).p
-            dec = [q for q in p if isinstance(q, Dec)]
-            if len(dec) != 1 or dec[0].wlo != 2 or dec[0].whi != 2 or len(rt.SymStr.of(x[1]._s)) != 4 + len(cls):
+            v = None
+            if len(p) >= 3 and isinstance(p[2], Dec) and p[2].wlo == 2 and p[2].whi == 2 and len(p) == 3 + len(cls):
+                v = p[2].v
+            elif len(rt.SymStr.of(x[1]._s)) == 4 + len(cls):
+                dd_chars = rt.SymStr.of(x[1]._s)._dense().p[2:4]
+                v = (rt.zc(dd_chars[0]) - 48) * 10 + (rt.zc(dd_chars[1]) - 48)
+            if v is None:
                 if ctx.final():
-                    bad = ("from_bban", "assembled IBAN has not the form cc + two check digits + bban")
+                    bad = ("from_bban", "assembled IBAN has not the length of cc + two check digits + bban")
             else:
-                v = dec[0].v
                 if ctx.final(z3.Not(z3.And(v >= 2, v <= 98))):
                     bad = ("from_bban", "computed check digits outside 02..98")
                 elif r[0] == "ret":
